@@ -12,11 +12,12 @@ Typed label values travel as JSON objects {"t": type, "v": payload}:
   bool -> true/false, str -> list of code points (lone surrogates survive), bytes -> list of ints,
   other -> {"k": kind} on input; on output {"t": "other", "ty": type name, "s": code points of str(value)}.
 """
+import asyncio
 import enum
 import struct
 
 import vloop
-from taskiq import Context, SimpleRetryMiddleware, TaskiqDepends, TaskiqMiddleware
+from taskiq import Context, SimpleRetryMiddleware, TaskiqDepends, TaskiqMessage, TaskiqMiddleware
 from taskiq.abc.broker import AsyncBroker
 from taskiq.abc.result_backend import AsyncResultBackend
 from taskiq.brokers.shared_broker import AsyncSharedBroker
@@ -129,17 +130,115 @@ class RecBackend(AsyncResultBackend):
 
 
 class RecMiddleware(TaskiqMiddleware):
-    def __init__(self, log):
+    def __init__(self, log, tag=""):
         super().__init__()
-        self.log = log
+        self.log, self.tag = log, tag
 
     def pre_execute(self, message):
-        self.log.append(("pre", message.task_id, enc_dict(message.labels), message.task_name,
+        self.log.append(("pre" + self.tag, message.task_id, enc_dict(message.labels), message.task_name,
                          list(message.args), dict(message.kwargs)))
         return message
 
     def post_execute(self, message, result):
-        self.log.append(("post", message.task_id, enc_dict(message.labels), enc_dict(result.labels)))
+        self.log.append(("post" + self.tag, message.task_id, enc_dict(message.labels), enc_dict(result.labels)))
+
+
+# ------------------------------------------------------------------ middlewares that hand the message on (case["xmw"])
+# A middleware's pre_execute / pre_send returns "the" message: the object it was given, or any other TaskiqMessage with the
+# same content.  None of the ways below touches a label (value or type), so everything downstream must see the labels that
+# were set.  PASS_MODES = how the returned object is made; STYLES = how it is returned.
+PASS_MODES = ["same", "copy", "deep", "update", "rebuild", "sub", "construct", "validate", "notypes"]
+STYLES = ["sync", "async", "future", "awaitable"]
+
+
+class SubMessage(TaskiqMessage):
+    """a user's own message class (no extra fields: the wire form stays what it is)"""
+
+    def describe(self):
+        return "%s/%s" % (self.task_name, self.task_id)
+
+
+class Ready:
+    """an awaitable that is neither a coroutine nor a Future"""
+
+    def __init__(self, value):
+        self.value = value
+
+    def __await__(self):
+        return self.value
+        yield  # pragma: no cover
+
+
+def pass_on(m, mode):
+    if mode == "same":
+        return m
+    if mode == "copy":                      # shallow: the copy shares the labels dict with the original
+        return m.model_copy()
+    if mode == "deep":
+        return m.model_copy(deep=True)
+    if mode == "update":
+        return m.model_copy(update={"labels": dict(m.labels)})
+    if mode == "validate":                  # python-mode dump: values stay the objects they are
+        return TaskiqMessage.model_validate(m.model_dump())
+    fields = dict(task_id=m.task_id, task_name=m.task_name, labels=dict(m.labels),
+                  labels_types=None if m.labels_types is None else dict(m.labels_types),
+                  args=list(m.args), kwargs=dict(m.kwargs))
+    if mode == "rebuild":
+        return TaskiqMessage(**fields)
+    if mode == "sub":
+        return SubMessage(**fields)
+    if mode == "construct":
+        return TaskiqMessage.model_construct(**fields)
+    if mode == "notypes":                   # worker side only: the labels are parsed already, the types are spent
+        fields["labels_types"] = None
+        return TaskiqMessage(**fields)
+    raise ValueError(mode)
+
+
+def styled(value, style):
+    if style == "future":
+        f = asyncio.get_running_loop().create_future()
+        f.set_result(value)
+        return f
+    if style == "awaitable":
+        return Ready(value)
+    return value
+
+
+def make_hook(mode, style, log, what):
+    if style == "async":
+        async def hook(self, message):
+            log.append((what, mode, style))
+            return pass_on(message, mode)
+    else:
+        def hook(self, message):
+            log.append((what, mode, style))
+            return styled(pass_on(message, mode), style)
+    return hook
+
+
+def make_pass_middleware(spec, log):
+    """spec = {"pos": first|mid|last, "pre": mode or None, "send": mode or None, "style": .., "inherit": bool}; only the hooks
+    that are configured are defined (Receiver / kicker skip hooks that are TaskiqMiddleware's own)"""
+    ns = {}
+    style = spec.get("style", "sync")
+    if spec.get("pre"):
+        ns["pre_execute"] = make_hook(spec["pre"], style, log, "xpre")
+    if spec.get("send"):
+        ns["pre_send"] = make_hook(spec["send"], style, log, "xsend")
+    cls = type("PassMiddleware", (TaskiqMiddleware,), ns)
+    if spec.get("inherit"):                 # the hooks live in a base class of the middleware's class
+        cls = type("InheritingPassMiddleware", (cls,), {})
+    return cls()
+
+
+def build_stack(base, xmw, log):
+    """base = [recorder, (retry middleware)]; first = before the recorder, mid = after it, last = after the retry middleware;
+    a second recorder at the very end sees what the later middlewares see"""
+    by = {"first": [], "mid": [], "last": []}
+    for spec in xmw:
+        by[spec.get("pos", "mid")].append(make_pass_middleware(spec, log))
+    return by["first"] + base[:1] + by["mid"] + base[1:] + by["last"] + [RecMiddleware(log, "2")]
 
 
 def wire_of(broker, bm):
@@ -180,6 +279,8 @@ class Scenario:
                 mws.append(SimpleRetryMiddleware(default_retry_count=mw.get("count", 100),
                                                  default_retry_label=mw.get("label", True),
                                                  no_result_on_retry=mw.get("nror", True)))
+            if case.get("xmw") is not None:
+                mws = build_stack(mws, case["xmw"], self.log)
             b.add_middlewares(*mws)
             self.brokers.append(b)
         self.shared = AsyncSharedBroker()
@@ -248,6 +349,7 @@ class Scenario:
             del self.kicked[before:]
             at = {"broker": bi, "task_id": m.task_id, "callback_raised": exc, "pre": None, "ctx": None, "post": None,
                   "post_res": None, "res": None, "act": None, "raised": None, "nbody": len(self.body_log), "args": None,
+                  "pre2": None, "post2": None, "passed": [list(ev) for ev in self.log if ev[0] in ("xpre", "xsend")],
                   "resent": [dict(broker=b2, task_id=m2.task_id, task_name=m2.task_name,
                                   bm_labels=enc_dict(m2.labels), wire=wire_of(self.brokers[b2], m2)) for b2, m2 in new]}
             for ev in self.log:
@@ -255,6 +357,10 @@ class Scenario:
                     at["pre"], at["pre_tid"], at["name"], at["margs"] = ev[2], ev[1], ev[3], [ev[4], ev[5]]
                 elif ev[0] == "post":
                     at["post"], at["post_res"] = ev[2], ev[3]
+                elif ev[0] == "pre2":
+                    at["pre2"] = ev[2]
+                elif ev[0] == "post2":
+                    at["post2"] = ev[2]
                 elif ev[0] == "save":
                     at["res"], at["res_tid"], at["res_err"], at["res_exc"] = ev[2], ev[1], ev[3], ev[4]
             if self.body_log:
@@ -312,6 +418,7 @@ def run_case(case, opts):
                     kickers[op["k"]].with_broker(sc.brokers[op["b"]])
                 elif o in ("kiq", "task_kiq"):
                     before = len(sc.kicked)
+                    nlog = len(sc.log)
                     args = op.get("args", [])
                     kwargs = op.get("kwargs", {})
                     try:
@@ -324,7 +431,8 @@ def run_case(case, opts):
                         kerr, hid = "%s: %s / %r" % (type(e).__name__, e, e.__cause__), None
                     new = sc.kicked[before:]
                     del sc.kicked[before:]
-                    rec = {"op": oi, "err": kerr, "handle_id": hid, "n": len(new), "plan": op.get("plan", ["ok"])}
+                    rec = {"op": oi, "err": kerr, "handle_id": hid, "n": len(new), "plan": op.get("plan", ["ok"]),
+                           "passed": [list(ev) for ev in sc.log[nlog:] if ev[0] == "xsend"]}
                     if new:
                         b, m = new[0]
                         rec.update(broker=b, task_id=m.task_id, task_name=m.task_name, bm_labels=enc_dict(m.labels),
